@@ -262,8 +262,10 @@ static void do_fromfd(const unsigned char *data, size_t len, int depth, int via_
 		json_tokener_free(tk);
 }
 
+static char nestkind[256];
 static int drive(int start, int nexec)
 {
+	dump_depth_cap = 60; /* deeper parts are compared by json_object_equal only (field "equal") */
 	const char *seed = getenv("VERIF_SEED");
 	uint64_t s0 = seed ? strtoull(seed, 0, 10) : 1;
 	for (int x = start; x < nexec; x++)
@@ -292,7 +294,38 @@ static int drive(int start, int nexec)
 			len += 3;
 		}
 		static const int depths[] = {-1, -1, -1, 1, 2, 3, 0, 32};
-		do_fromfd(data, len, depths[vh_below(8)], (int)vh_below(5) == 0);
+		int depth = depths[vh_below(8)];
+		if (r == 3 || r == 4)
+		{
+			/* deeply nested documents against limits below, at and above the nesting - also limits above the default (32) */
+			static const int nests[] = {1, 2, 5, 30, 31, 32, 33, 34, 40, 64, 100, 127, 128, 129, 200};
+			int n = nests[vh_below(sizeof nests / sizeof *nests)];
+			free(data);
+			data = malloc((size_t)n * 8 + 16);
+			len = 0;
+			for (int i = 0; i < n; i++)
+			{
+				if (vh_below(3) == 0)
+				{
+					memcpy(data + len, "{\"k\":", 5);
+					len += 5;
+					nestkind[i] = '}';
+				}
+				else
+				{
+					data[len++] = '[';
+					nestkind[i] = ']';
+				}
+			}
+			data[len++] = '7';
+			for (int i = n - 1; i >= 0; i--)
+				data[len++] = (unsigned char)nestkind[i];
+			static const int around[] = {-2, -1, 0, 1, 2};
+			depth = vh_below(4) == 0 ? (int[]){33, 64, 128, 1000, 32, -1}[vh_below(6)] : n + around[vh_below(5)];
+			if (depth < 1 && depth != -1)
+				depth = 1;
+		}
+		do_fromfd(data, len, depth, depth == -1 && (int)vh_below(5) == 0);
 		free(data);
 		if (x % 10 == 0)
 		{
